@@ -603,6 +603,13 @@ def run(ctx):
     else:
         n = ctx.n(6000, 250000)
         lines = vlib.corpus_lines("C22") + [gen(ctx.rng) for _ in range(n)]
+        # civil functions against Go's time package over a stride of the whole year range
+        step = ctx.n(20011, 199)
+        for y in range(MINY, MAXY + 1, step):
+            m = ctx.rng.randint(1, 12)
+            lines.append("date\tdt\tmk\t%d\t%d\t%d\t0\t0\t0\t0" % (y, m, ctx.rng.choice([1, 28, dim(y, m)])))
+            if y % 3 == 0:
+                lines.append("date\tadd\t%d\t%d\t1\t0\t%d" % (y, m, ctx.rng.choice([365, 366, -365, 146097, 36524, 1461])))
     # lines the model does not cover (directive outside the subset, clock-dependent parse) are dropped, counted
     pre = vlib.run_model(lines)
     keep = []
